@@ -279,7 +279,12 @@ MusDelay(I, cur, end, ev, steps) ==
   IF ev < 128 THEN MusWalk(I, cur, end, steps + 1)
   ELSE LET V == View(I, 0, IF R("mus") THEN end ELSE N(I), <<>>)
            t == VlqEnd(V, cur) IN                     \* do ... while(*cur++ & 128)
-       IF t < 0 THEN MusOob ELSE MusWalk(I, t + 1, end, steps + 1)
+       IF t < 0 THEN MusOob
+       \* repaired (dd349fa): a delay that leaves the 28 bits of a variable-length quantity ends the conversion, i.e. any
+       \* non-zero digit in front of the last four; beyond ten digits the model does not look at the digits
+       ELSE IF R("mus") /\ VlqVal(V, cur, t).cls # "small" THEN Rej
+       ELSE IF R("mus") /\ t - cur >= 10 THEN Unk
+       ELSE MusWalk(I, t + 1, end, steps + 1)
 ParseMUS(I) ==
   LET sl == LE16(I, 4)
       ss == LE16(I, 6) IN
